@@ -2,6 +2,8 @@ package rules
 
 import (
 	"fmt"
+	"go/constant"
+	"go/token"
 	"go/types"
 	"strings"
 
@@ -50,11 +52,47 @@ func dryRunField(p *core.Prog) (*types.Named, string) {
 		return nil, ""
 	}
 	for _, fs := range fieldStores(core.WithAnon(w), func(n *types.Named, f string) bool { return n.Obj().Name() == "Sandbox" }) {
-		if b, ok := core.ConstBool(fs.Store.Val); ok && b {
+		if c, ok := fs.Store.Val.(*ssa.Const); ok && c.Value != nil {
+			dryRunConst = c
 			return core.FieldAddrInfo(fs.Addr)
 		}
 	}
 	return nil, ""
+}
+
+// dryRunConst is the constant WithDryRun stores into the flag (true for a bool flag, the dry-run
+// member for a small enum).
+var dryRunConst *ssa.Const
+
+// notDryRunEdge: the guard edge (condition c with truth pol) establishes that the flag (n, f) does
+// not have its dry-run value.
+func notDryRunEdge(c ssa.Value, pol bool, n *types.Named, f string) bool {
+	if fieldLoadSame(c, n, f) {
+		// bool flag used directly
+		if b, ok := core.ConstBool(dryRunConst); ok {
+			return pol != b
+		}
+		return false
+	}
+	bo, ok := c.(*ssa.BinOp)
+	if !ok || (bo.Op != token.EQL && bo.Op != token.NEQ) {
+		return false
+	}
+	var k *ssa.Const
+	switch {
+	case fieldLoadSame(bo.X, n, f):
+		k, _ = bo.Y.(*ssa.Const)
+	case fieldLoadSame(bo.Y, n, f):
+		k, _ = bo.X.(*ssa.Const)
+	}
+	if k == nil || k.Value == nil || dryRunConst == nil {
+		return false
+	}
+	equalOnEdge := (bo.Op == token.EQL) == pol
+	if constant.Compare(k.Value, token.EQL, dryRunConst.Value) {
+		return !equalOnEdge // flag != dry-run value
+	}
+	return equalOnEdge // flag == some other value
 }
 
 func runC19(p *core.Prog, r *core.Report) {
@@ -79,7 +117,7 @@ func c19R1(p *core.Prog, r *core.Report) {
 	}
 	bindings := luaBindings(p)
 	gated := func(site ssa.Instruction) bool {
-		return guardedBy(site.Block(), false, func(v ssa.Value) bool { return fieldLoadSame(v, n, f) })
+		return anyGuard(site.Block(), func(c ssa.Value, pol bool) bool { return notDryRunEdge(c, pol, n, f) })
 	}
 	maxVisited := 0
 	for _, b := range bindings {
@@ -142,12 +180,13 @@ func c19R2(p *core.Prog, r *core.Report) {
 	lab := labeler{}
 	for _, fs := range fieldStores(p.ModFuncs, func(n2 *types.Named, f2 string) bool { return n2 == n && f2 == f }) {
 		fname := p.FuncName(fs.Fn)
-		b, isConst := core.ConstBool(fs.Store.Val)
+		k, isConst := fs.Store.Val.(*ssa.Const)
 		root := fs.Fn
 		for root.Parent() != nil {
 			root = root.Parent()
 		}
-		ok := isConst && ((b && root.Name() == "WithDryRun") || (!b && root.Name() == "New"))
+		isDry := isConst && k.Value != nil && dryRunConst != nil && constant.Compare(k.Value, token.EQL, dryRunConst.Value)
+		ok := isConst && ((isDry && root.Name() == "WithDryRun") || (!isDry && root.Name() == "New"))
 		r.Check(ok, rule, fname, lab.next("store "+f), p.Pos(fs.Store.Pos()), "writer of the dry-run flag (allowed: WithDryRun sets true, New initialises false)")
 	}
 	// the composite literal in New initialises the field through a FieldAddr store, counted above.
@@ -272,7 +311,7 @@ func addrBase(a ssa.Value) ssa.Value {
 
 func c19R3(p *core.Prog, r *core.Report) {
 	const rule = "C19.R3"
-	r.Rule(rule, "RunScript defers a recover that turns a panic into its error result; every loop over the configured scripts leaves only through exhaustion of the range (no exit depends on one script's outcome)", 3)
+	r.Rule(rule, "RunScript defers a recover that turns a panic into its error result; every loop over the configured scripts leaves only through exhaustion of the range (no exit depends on one script's outcome)", 2)
 	run := p.Method(sandboxRel, "Sandbox", "RunScript")
 	if run == nil {
 		r.MissingAnchor(rule, sandboxRel+".(*Sandbox).RunScript")
@@ -284,7 +323,31 @@ func c19R3(p *core.Prog, r *core.Report) {
 				return
 			}
 			lit := closureOf(d.Call.Value)
-			if lit == nil {
+			if lit == nil || lit.Parent() == nil {
+				// a deferred method or function of the module that recovers itself and writes the error
+				// through a pointer it is given
+				if g := d.Call.StaticCallee(); g != nil && p.InModule(g) && len(g.Blocks) > 0 {
+					rec, sto := false, false
+					for _, b := range g.Blocks {
+						for _, in := range b.Instrs {
+							if call, ok := in.(*ssa.Call); ok {
+								if bi, ok := call.Call.Value.(*ssa.Builtin); ok && bi.Name() == "recover" {
+									rec = true
+								}
+							}
+							if st, ok := in.(*ssa.Store); ok {
+								if pr, ok := st.Addr.(*ssa.Parameter); ok {
+									if pt, ok := pr.Type().Underlying().(*types.Pointer); ok && types.Identical(pt.Elem(), types.Universe.Lookup("error").Type()) {
+										sto = true
+									}
+								}
+							}
+						}
+					}
+					if rec && sto {
+						ok = true
+					}
+				}
 				return
 			}
 			recovers, stores := false, false
